@@ -133,12 +133,12 @@ def slc_order(t, n):
 
 
 def rate_order(t, n):
-    """confirmed rate blocks: on air DBSN(7) CRC9(9, LSB first) data [crc32]; the CRC-9 covers data o [crc32] o DBSN"""
+    """confirmed rate blocks: on air DBSN(7) CRC9(9, most significant bit first like every field) data [crc32]; the CRC-9 covers
+    data o [crc32] o DBSN.  (Until hunt 2 this function had the nine bits in the reverse order - the order the library wrote and
+    read them in, not the one on the air: a captured block of the repository's own tests was reported [CRC9 INVALID].)"""
     if t >= 16:
         return t - 16
-    if t < 7:
-        return (n - 16) + t
-    return (n - 16) + 7 + (8 - (t - 7))
+    return (n - 16) + t
 
 
 def small_crc32(r):
@@ -442,6 +442,12 @@ def run(ctx):
         parts = pool.map(corrupt_case, [(i, ctx.seed * 101 + i, ctx.quick) for i in range(ncases)])
         targets = pool.apply(low_weight_targets, (ctx.seed,))
     rt = sum((p[0] for p in parts), [])
+    # a confirmed rate 3/4 block captured on the air (the repository's test_rate34_conversion vector): the indicator of a valid
+    # received block is true - the library's own serialiser has no part in these bits
+    from bitarray import bitarray as _ba
+    from okdmr.dmrlib.etsi.layer2.pdu.rate34_data import Rate34Data as _R34, Rate34DataTypes as _T34
+    _cap = _ba("000000000001011101000101000000000000000000101110111111111111111100000000000000000100000000010001111100100111111100001100001000110011011111111100")
+    rt.append({"cls": "Rate34Data/Confirmed-captured-on-air", "ok": bool(_R34.from_bits_typed(bits=_cap, data_type=_T34.Confirmed).crc9_ok)})
     cor = sum((p[1] for p in parts), []) + targets
     ctx.note("fold_aimed_patterns", sum(p[2] for p in parts))
     ctx.count(None, (1 << 20) + (1 << 16))
